@@ -4,8 +4,6 @@ package c17
 import (
 	"encoding/json"
 	"fmt"
-	"strconv"
-	"strings"
 	"testing"
 
 	"github.com/paulsonkoly/chess-3/board"
@@ -161,8 +159,8 @@ func checkCase(c Case, rec *evid.Rec) error {
 	if c.UCI {
 		out, _ := eng.UCI([]string{"position fen " + p.FEN(), "eval"})
 		// the command prints the score in UCI notation: "cp <n>"
-		got, err := strconv.Atoi(strings.TrimPrefix(eng.LastLine(out), "cp "))
-		if err != nil {
+		got, ok := eng.LastScore(out)
+		if !ok {
 			return fmt.Errorf("`eval` printed %q", out)
 		}
 		pb, _ := mustBoard(&p)
